@@ -416,13 +416,16 @@ def kernel_slice(core):
             raise KernelError("slice.update: unexpected early return")
         skip = set(o for e in early for _, o in e.pc)
         finished = early[0].guard() if early else "false"
-        bumped = [n for n, b in sx.lets if b == "(state + (1))"]
-        for e, what in ((emit, "the emission"), (check, "_check_end")):
-            if e.env.get("self.state") not in bumped:
-                raise KernelError("slice.update: state is not incremented by one before %s" % what)
+        # the counter at the time of the emission = at the time of _check_end = at the end of every path that is not
+        # the early return (what it is, one more than before, is the bridge lemma bridge_slice_next)
+        nxt = emit.env.get("self.state")
+        if nxt is None or check.env.get("self.state") != nxt:
+            raise KernelError("slice.update: the counter differs between _check_end and the emission")
         for e in sx.events:
-            if e.kind in ("end", "return") and e not in early and e.env.get("self.state") not in bumped:
-                raise KernelError("slice.update: state is not incremented exactly once on every path")
+            if e.kind in ("end", "return") and e not in early and e.env.get("self.state") != nxt:
+                raise KernelError("slice.update: the counter is not advanced the same way on every path")
+        if out.setdefault("next", sx.close(nxt)) != sx.close(nxt):
+            raise KernelError("slice.update: the counter depends on whether self.end is None")
         gate = sx.close(emit.guard(skip))
         if out.setdefault("pass", gate) != gate:
             raise KernelError("slice.update: the gate depends on whether self.end is None")
@@ -444,8 +447,9 @@ def kernel_slice(core):
     done = option_cases("slice._check_end", "self.end", "stop", run_check)
     return ("(* streamz/core.py slice.update / _check_end *)\n"
             "Definition gen_slice_pass (state start step : Z) : bool :=\n  %s.\n"
+            "Definition gen_slice_next (state : Z) : Z :=\n  %s.\n"
             "Definition gen_slice_done (state : Z) (stop : option Z) : bool :=\n  %s.\n"
-            "Definition gen_slice_finished (state : Z) (stop : option Z) : bool :=\n  %s.\n" % (out["pass"], done, finished))
+            "Definition gen_slice_finished (state : Z) (stop : option Z) : bool :=\n  %s.\n" % (out["pass"], out["next"], done, finished))
 
 
 def kernel_kafka(sources):
